@@ -59,7 +59,7 @@ CLAIMS = {
          "substitute (simultaneity: swap tables) of BDD and BCDD interpreted on structured operands and cubes over three modelled "
          "levels and compared with the fold of cofactors / the cofactor / the simultaneous substitution. Decides tag/dualisation "
          "plumbing, unit discipline and the inductive step; not substitute_prepare's table construction nor the induction itself.", "abstract interpretation of HIR dispatch tables", "3.4, 4 C04"),
- "C05": ("E-LIN + E-FREELIST(.count,.term) + E-CACHE.dm + E-CANON.swap + E-WHO + E-EVENT.gc-order: edge linearity on every non-unwind path of every function body "
+ "C05": ("E-LIN + E-FREELIST(.count,.term) + E-CACHE.dm + E-CANON.swap + E-WHO + E-EVENT.gc-order + E-DBG + E-CFG.slabtype: edge linearity on every non-unwind path of every function body "
          "(drop-elaborated MIR) plus the vetted-destructor table; thread-local free lists and node-count deltas are handed to the "
          "shared store by move only; level_swap releases a node's edges before unlinking children; frozen caller sets of the "
          "node-removal primitives and their gates; Manager::gc sweeps all inner-node levels before the terminal table; the apply cache (uncounted edges) stays locked and empty "
@@ -114,7 +114,7 @@ CLAIMS = {
          "branch taken; the count cache that weights pick_cube_uniform is read through sat_count_edge only. Does not decide that the "
          "cube is an implicant, nor uniformity.",
          "abstract interpretation of HIR + dimension (unit) analysis", "3.3, 3.10, 4 C13"),
- "C14": ("E-LIN + E-OOM + E-FREELIST(.count,.term) + E-EVENT.gc-order: E-LIN restricted to error exits: on every `?`/Err path of the rules crates, oxidd-dump, oxidd-reorder, the managers "
+ "C14": ("E-LIN + E-OOM + E-FREELIST(.count,.term) + E-EVENT.gc-order + E-DBG: E-LIN restricted to error exits: on every `?`/Err path of the rules crates, oxidd-dump, oxidd-reorder, the managers "
          "and the FFI crate no owned edge is dropped by the compiler, i.e. everything acquired is released through a guard or "
          "the manager; AllocResult is unwrapped only where allocation cannot fail (static terminals) and process::abort is reached only "
          "from reviewed sites (2 recorded known findings: level_swap and ZBDDCache::post_reorder_mut abort on OOM); gc sweeps terminals "
